@@ -277,7 +277,7 @@ def run(tier, seed):
         for v in range(4 if thorough else 1):
             sc_joint({"kind": "joint", "label": label + "~rand", "specs": _perturb(specs, rng), "n": 100000 if thorough else 20000, "seeds": False, **seeds()}, rec)
     # a large ODD size (a draw done in parts must not lose the remainder): one cheap model in the quick tier
-    first = next(iter(MODELS))
+    first = next(lab for lab, sp in MODELS.items() if any(d.get("cond") is not None for d in sp))   # a model WITH a conditional variable
     sc_joint({"kind": "joint", "label": first, "specs": MODELS[first], "n": 526315, "seeds": False, **seeds()}, rec)
     if thorough:
         for label in ("3d(N,0,1)", "2d(N,0):EW>EW-chained"):
